@@ -247,6 +247,17 @@ def plan_c14(c):
     return m
 
 
+def plan_accept(area, cfg, what, mc=True):
+    def plan(c):
+        if mc:
+            mc_wire(c)
+        mc_poll(c)
+        m, _ = tv(c, area, "Trace_Accept", cfg, what, shard=4000)
+        c.traces += m
+        return m
+    return plan
+
+
 NOT_CLAIMED = {}
 
 PLANS = {
@@ -371,6 +382,39 @@ _reg("C14", plan_c14, "fault_enumeration",
      "seeded packet a read error of 4 kinds or EOF at EVERY position (async + poll), a write error of 4 kinds or zero-length "
      "write at EVERY position (async encoder, streaming body encoder), and the error conversions; validated against the spec.",
      "fault enumeration at every position + TLA+ model with fault actions + trace validation")
+
+
+_reg("C04", plan_accept("strict", "Trace_Accept_C04.cfg", "C04 strict acceptance = grammar"), "model_checking",
+     "The operational grammar (Wire.tla: StrictParse) is model-checked for self-consistency (MC_Wire) and the poll-decoder "
+     "model is checked to deliver exactly StrictParse for every schedule (MC_Poll); real code: valid frames, legal non-"
+     "canonical spellings, catalogue malformations and re-framed byte-level mutations are given to the poll decoder and each "
+     "verdict (accept + field values / reject) is validated against the grammar. Frames containing a possibly non-minimal "
+     "var-int pattern are skipped (outside C04's quantifier).",
+     "TLA+ grammar as oracle + TLC + trace validation of mutated frames")
+_reg("C20", plan_accept("mal", "Trace_Accept_C20.cfg", "C20 documented error per catalogue malformation", mc=False),
+     "model_checking",
+     "Every catalogue malformation (25 kinds) at every site of seeded packets of every type: the grammar's first error must be "
+     "the variant documented for the malformation (table Documented in Trace_Accept.tla) and the blocking, async and poll "
+     "decoders must report exactly the grammar's error (variant and carried value; strict: remaining-length error, lenient: "
+     "incomplete, for an inner length past the frame).", "catalogue enumeration at every site + TLA+ operational grammar + "
+     "trace validation")
+_reg("C11", plan_accept("reenc", "Trace_Accept_C11.cfg", "C11 accepted input re-encodes and decodes to itself", mc=False),
+     "model_checking",
+     "Inputs: valid encodings (+ suffix), legal non-canonical spellings (short forms spelled out, reversed property order, "
+     "non-minimal remaining length), catalogue malformations, structure-aware corruptions. Whatever any front-end accepts is "
+     "re-encoded (a panic is data) and re-decoded on all three; the C11 equations are validated by TLC.",
+     "trace validation of decode/re-encode/re-decode observations")
+_reg("C12", plan_accept("decoded", "Trace_Accept_C12.cfg", "C12 invariants of decoded packets", mc=False), "model_checking",
+     "For every packet any front-end accepts (same input families as C11, with invalid UTF-8 / wildcards / invalid filters "
+     "injected at every text-bearing site): every text field checked with the specification's UTF-8 automaton on the raw "
+     "bytes; the library's own name/filter predicates and shared accessors run on the decoded values; pids, var-ints and "
+     "flagged payloads checked.", "site-injection + trace validation with the spec's UTF-8 DFA")
+_reg("C13", plan_accept("cross", "Trace_Accept_C13.cfg", "C13 other family's CONNECT", mc=False), "model_checking",
+     "Seeded rich CONNECTs of v3.1, v3.1.1 and v5.0 presented to the other family's blocking, async and poll decoders: "
+     "UnexpectedProtocol(found version), async position <= end of protocol level, resuming with the native family's "
+     "known-protocol entry point = native packet; plus the full table of 256 levels x 7 protocol names x 2 layouts x 2 decoder "
+     "families x 3 front-ends validated against Proto() of the specification.",
+     "TLA+ spec + exhaustive name/level table + trace validation")
 
 
 def replay(path):
